@@ -34,9 +34,16 @@ var acquireOps = map[string]bool{
 var readyFns = map[string]func(in *Interp, g *G, a []Value) bool{
 	"(*sync.RWMutex).Lock": func(in *Interp, g *G, a []Value) bool {
 		m := in.mutexOf(a[0])
-		return !m.writer && m.readers == 0
+		if m.writer || (m.pending != nil && m.pending != g) {
+			return false
+		}
+		// with readers inside, the first step (announcing the pending writer) can still be taken
+		return m.readers == 0 || m.pending == nil
 	},
-	"(*sync.RWMutex).RLock": func(in *Interp, g *G, a []Value) bool { return !in.mutexOf(a[0]).writer },
+	"(*sync.RWMutex).RLock": func(in *Interp, g *G, a []Value) bool {
+		m := in.mutexOf(a[0])
+		return !m.writer && m.pending == nil
+	},
 	"(*sync.Mutex).Lock":    func(in *Interp, g *G, a []Value) bool { return !in.mutexOf(a[0]).writer },
 	"(*sync.WaitGroup).Wait": func(in *Interp, g *G, a []Value) bool {
 		s, ok := in.side[a[0].R.(*Value)].(*wgSt)
